@@ -257,6 +257,56 @@ func ruleRevOrder(c *Ctx) []Obligation {
 	} else {
 		obs = append(obs, bad(R, con, c.InstrPos(full), "no duplicate test with an error exit dominating the stores"))
 	}
+	// a module without a revision is filed under the bare name as its FULL name: a revision that arrives later must
+	// not take that key over silently (nothing else reaches the first module)
+	con = "add: a module without a revision is never displaced from the bare name by a revision loaded after it"
+	guarded := false
+	eachInstr(add, func(in ssa.Instruction) {
+		ifi, isIf := in.(*ssa.If)
+		if !isIf || guarded {
+			return
+		}
+		// cond (possibly the second half of `o != nil && …`): holder.FullName() == bare name
+		var cmp *ssa.BinOp
+		backSlice(ifi.Cond, func(x ssa.Value) bool {
+			if bo, isB := x.(*ssa.BinOp); isB && bo.Op == token.EQL && cmp == nil {
+				if lc, isC := bo.X.(*ssa.Call); isC && lc.Call.StaticCallee() != nil && lc.Call.StaticCallee().Name() == "FullName" && len(lc.Call.Args) > 0 {
+					rv := lc.Call.Args[0]
+					if ex, isE := rv.(*ssa.Extract); isE {
+						rv = ex.Tuple
+					}
+					if l, isL := rv.(*ssa.Lookup); isL && sameKey(l.Index, bareKey) && sameKey(bo.Y, bareKey) {
+						cmp = bo
+					}
+				}
+			}
+			return true
+		})
+		if cmp == nil {
+			return
+		}
+		// the true side leaves with an error, and the test — or, when it is the second half of `o != nil && …`,
+		// the nil test in front of it — dominates the bare-name store
+		if !blockReturnsError(ifi.Block().Succs[0]) {
+			return
+		}
+		if dominates(ifi, bare) {
+			guarded = true
+			return
+		}
+		for _, g := range guardsAt(ifi.Block()) {
+			if x, isEq, okn := nilTest(g.Cond); okn && isEq != g.Branch && dominates(g.If, bare) {
+				if l, isL := x.(*ssa.Lookup); isL && sameKey(l.Index, bareKey) {
+					guarded = true
+				}
+			}
+		}
+	})
+	if guarded {
+		obs = append(obs, ok(R, con, c.InstrPos(bare), "if o := m[name]; o != nil && o.FullName() == name { return error } dominates the store"))
+	} else {
+		obs = append(obs, bad(R, con, c.InstrPos(bare), "the bare name is re-pointed to a revision although its holder may be a module WITHOUT a revision (whose only key it is): that module silently drops out of the set in one load order, while the other order is rejected as a duplicate"))
+	}
 	con = "add: the bare name is re-pointed only when it is absent or holds an older revision"
 	absent, older := false, false
 	other := false
